@@ -102,6 +102,8 @@ type countMinSketchJSON struct {
 
 // Export JSON marshals the CountMinSketch and returns a byte slice containing the data
 func (cms *CountMinSketch) Export() ([]byte, error) {
+	cms.lock.Lock()
+	defer cms.lock.Unlock()
 	return json.Marshal(countMinSketchJSON{cms.rows, cms.columns, cms.allSum, cms.matrix, ""})
 }
 
@@ -142,9 +144,17 @@ func (cms *CountMinSketch) Merge(cms1 *CountMinSketch) error {
 	if cms.columns != cms1.columns {
 		return fmt.Errorf("gostatix: can't merge sketches with unequal column counts, %d and %d", cms.columns, cms1.columns)
 	}
+	cms1.lock.Lock()
+	other := make([][]uint64, len(cms1.matrix))
+	for i := range cms1.matrix {
+		other[i] = append([]uint64(nil), cms1.matrix[i]...)
+	}
+	cms1.lock.Unlock()
+	cms.lock.Lock()
+	defer cms.lock.Unlock()
 	for i := range cms.matrix {
 		for j := range cms.matrix[i] {
-			cms.matrix[i][j] += cms1.matrix[i][j]
+			cms.matrix[i][j] += other[i][j]
 		}
 	}
 	return nil
@@ -154,6 +164,8 @@ func (cms *CountMinSketch) Merge(cms1 *CountMinSketch) error {
 // number of bytes written.
 // It can be used to write to disk (using a file stream) or to network.
 func (cms *CountMinSketch) WriteTo(stream io.Writer) (int64, error) {
+	cms.lock.Lock()
+	defer cms.lock.Unlock()
 	err := binary.Write(stream, binary.BigEndian, uint64(cms.rows))
 	if err != nil {
 		return 0, err
